@@ -63,7 +63,7 @@ def generate(prop, seed, tier):
     return {'engine': 'wire', 'prop': prop, 'seed': seed, 'spec': spec, 'pres': pres, 'interp': g.random() < 0.75,
             'writer': {'alloc': {'mode': g.choice(['order', 'reuse', 'seq']), 'seed': seed * 2 + 1}, 'dtype': g.choice(['float64', 'float64', 'float32'])},
             'reader': {'alloc': {'mode': g.choice(['order', 'seq']), 'seed': seed * 2 + 2}},
-            'corrupt': corrupt, 'wspecs': wspecs,
+            'corrupt': corrupt, 'wspecs': wspecs, 'rewrite': g.randrange(1, 1 << 30) if g.random() < 0.3 else None,
             # a real second interpreter as the reader (real addresses as ids, another PYTHONHASHSEED)
             'reader_proc': {'hashseed': g.randrange(1, 1000)} if g.random() < (0.01 if tier == 'quick' else 0.04) else None}
 
@@ -78,6 +78,10 @@ def reducers(case):
     if case.get('reader_proc'):
         c = copy.deepcopy(case)
         c['reader_proc'] = None
+        yield c
+    if case.get('rewrite'):
+        c = copy.deepcopy(case)
+        c['rewrite'] = None
         yield c
     for n, t in case['spec']['terms'].items():
         if t.get('pattern') is not None:
@@ -312,6 +316,33 @@ def execute(case):
                         log.add('corrupt', kind)
                 for k, v in renv.c.items():
                     allc['reader.' + k] = allc.get('reader.' + k, 0) + v
+            # ---- writer history: the same grammar object is saved again after its weights were updated in place
+            if interp and case.get('rewrite') and g1.factors:
+                rw = Stream(case['rewrite'], 'rewrite')
+                names = sorted(g1.factors)
+                changed = 0
+                for nm in names:
+                    ph = g1.factors[nm].weights.physical
+                    if ph.numel() == 0 or any(st == 0 for st in ph.stride()) or not ph.dtype.is_floating_point or rw.random() < 0.4:
+                        continue
+                    if rw.random() < 0.5:
+                        ph.mul_(0.5)
+                    else:
+                        ph.view(-1)[rw.randrange(ph.numel())] = rw.choice([float('inf'), 0.0, 3.25]) if ph.is_contiguous() else 3.25
+                    changed += 1
+                if changed:
+                    wenv.c.inc('probe.rewrite-after-inplace-update')
+                    try:
+                        text5 = json.dumps(F.fgg_to_json(g1))
+                    except Exception as ex:
+                        V('dumps', ['rewrite', type(ex).__name__], f'second fgg_to_json of the same object failed: {type(ex).__name__}: {ex}')
+                    with Env({**case['reader'], 'dtype': case['writer'].get('dtype', 'float64')}):
+                        try:
+                            g5 = F.json_to_fgg(json.loads(text5))
+                        except Exception as ex:
+                            V('roundtrip', ['rewrite', 'reader-raised', type(ex).__name__], f'reading back the second document failed: {type(ex).__name__}: {ex}')
+                        compare_grammars(g1, g5, interp, wenv.c)
+                    log.add('rewrite', changed)
             # ---- json_to_weights of patterned specifications
             for ws in case['wspecs']:
                 dt = getattr(torch, case['writer'].get('dtype', 'float64'))
